@@ -13,6 +13,7 @@ pub mod prng;
 pub mod props;
 pub mod refcodec;
 pub mod report;
+pub mod rig;
 pub mod sim;
 pub mod sock;
 
